@@ -56,6 +56,56 @@ struct Case {
     /// its own KES key and operational certificate, with the stake .2 - a second pool claiming a registered key
     #[serde(default)]
     claimant: Option<(u16, u16, u64)>,
+    /// one more registered party (library path) whose key is RELATED to the key of the set member picked by .0: the
+    /// opposite point (secret key r - sk, with its own valid proof of possession), i.e. a different key whose
+    /// compressed encoding differs from the member's in one flag bit only; .1: same stake as the member, or another
+    #[serde(default)]
+    opposite: Option<(u16, bool)>,
+}
+
+/// order of the BLS12-381 scalar field, big endian
+const SCALAR_FIELD_ORDER: [u8; 32] = [
+    0x73, 0xed, 0xa7, 0x53, 0x29, 0x9d, 0x7d, 0x48, 0x33, 0x39, 0xd8, 0x08, 0x09, 0xa1, 0xd8, 0x05, 0x53, 0xbd, 0xa4, 0x02, 0xff, 0xfe, 0x5b, 0xfe, 0xff, 0xff, 0xff, 0xff, 0x00, 0x00,
+    0x00, 0x01,
+];
+
+/// the verification key (with proof of possession) of the secret key r - sk, sk being the fixture party's secret key
+fn opposite_key(party_id: &str) -> Option<mithril_stm::VerificationKeyProofOfPossessionForConcatenation> {
+    let fx = fixture();
+    let sf = fx.signers_fixture().into_iter().find(|s| s.signer_with_stake.party_id == party_id)?;
+    let mut json = serde_json::to_value(&sf.protocol_initializer).ok()?;
+    let inner = json.get_mut("stm_initializer")?;
+    let init: mithril_stm::Initializer = serde_json::from_value(inner.clone()).ok()?;
+    let bytes = init.bls_signing_key.to_bytes();
+    let mut negated = [0u8; 32];
+    let mut borrow = 0i16;
+    for i in (0..32).rev() {
+        let mut diff = SCALAR_FIELD_ORDER[i] as i16 - bytes[i] as i16 - borrow;
+        if diff < 0 {
+            diff += 256;
+            borrow = 1;
+        } else {
+            borrow = 0;
+        }
+        negated[i] = diff as u8;
+    }
+    inner["sk"] = serde_json::to_value(negated.to_vec()).ok()?;
+    let opposite: mithril_stm::Initializer = serde_json::from_value(inner.clone()).ok()?;
+    Some(mithril_stm::VerificationKeyProofOfPossessionForConcatenation::from(&opposite.bls_signing_key))
+}
+
+/// library path over raw (key, stake) entries: (avk view, total stake, number of signer slots)
+fn path_a_raw(entries: &[(mithril_stm::VerificationKeyProofOfPossessionForConcatenation, u64)], params: &Parameters) -> Result<(Value, u64, usize), String> {
+    let mut reg = KeyRegistration::initialize();
+    for (vk, stake) in entries {
+        reg.register(*stake, vk).map_err(|e| format!("register: {e:#}"))?;
+    }
+    let closed = reg.close_registration(params).map_err(|e| format!("close: {e:#}"))?;
+    let slots = closed.closed_registration_entries.len();
+    let clerk: Clerk<D> = Clerk::new_clerk_from_closed_key_registration(params, &closed);
+    let avk = clerk.compute_aggregate_verification_key();
+    let concat = avk.to_concatenation_aggregate_verification_key();
+    Ok((avk_view(concat), concat.get_total_stake(), slots))
 }
 
 fn fixture() -> &'static MithrilFixture {
@@ -246,6 +296,32 @@ fn case_fn(c: &Case) -> Report {
                 return Err(fail("history-dependent:rejected-attempts", format!("{rejected} rejected registration attempt(s) changed the result: total stake {total_d} (sum of registered stakes {sum}), key {avk_d} vs {avk_ref}")));
             }
         }
+        // a registered party whose key is the opposite point of a set member's key: n + 1 distinct keys, n + 1 slots, the
+        // sum of the n + 1 stakes, and one aggregate key whatever the arrival order
+        if let Some((who, same_stake)) = &c.opposite {
+            let member = &base[pick_index(*who, n)];
+            if let Some(opp) = opposite_key(&member.party_id) {
+                let stake = if *same_stake { member.stake } else { member.stake / 2 + 1 };
+                if let Some(want_total) = sum.checked_add(stake) {
+                    let mut entries: Vec<(mithril_stm::VerificationKeyProofOfPossessionForConcatenation, u64)> = base.iter().map(|s| (*s.verification_key_for_concatenation, s.stake)).collect();
+                    entries.push((opp, stake));
+                    let mut front = vec![(opp, stake)];
+                    front.extend(entries[..n].iter().cloned());
+                    let mut seen: Option<(Value, u64, usize)> = None;
+                    for order in [entries.clone(), front, permute(&entries, &c.perm_a), permute(&entries, &c.perm_b)] {
+                        let got = path_a_raw(&order, &params).map_err(|e| fail("path-failed", format!("(a) with an opposite key: {e}")))?;
+                        if got.1 != want_total || got.2 != n + 1 {
+                            return Err(fail("related-key:party-lost", format!("{} distinct keys registered (one is the opposite point of another, stake {stake}): {} signer slots, total stake {} (expected {} and {want_total})", n + 1, got.2, got.1, n + 1)));
+                        }
+                        match &seen {
+                            None => seen = Some(got),
+                            Some(first) if *first != got => return Err(fail("order-dependent:related-key", format!("the same {} registrations (one key is the opposite point of another) give different aggregate keys in different arrival orders", n + 1))),
+                            _ => {}
+                        }
+                    }
+                }
+            }
+        }
         // a second pool claiming a registered key: whatever the node path does with it (the unchanged code refuses the
         // whole list), it does the same in every order
         if let Some((owner, claimer, stake)) = &c.claimant {
@@ -394,6 +470,9 @@ fn case_fn(c: &Case) -> Report {
     if !c.dup_attempts.is_empty() {
         rep.label("rejected-attempts");
     }
+    if let Some((_, same)) = &c.opposite {
+        rep.label(if *same { "opposite-key:same-stake" } else { "opposite-key:other-stake" });
+    }
     if base.iter().any(|s| s.stake == 0) {
         rep.label("zero-stake-party");
     }
@@ -425,16 +504,16 @@ fn strategy() -> impl Strategy<Value = Case> {
         prop_oneof![Just(0.2f64), Just(1.0f64), 0.01f64..1.0],
         prop_oneof![Just(Meta::None), r.prop_map(Meta::Remove), r.prop_map(Meta::StakePlus), r.prop_map(Meta::StakeMinus), (r, r).prop_map(|(a, b)| Meta::SwapStakes(a, b))],
         r,
-        (prop::collection::vec((r, r, 0u8..=3), 0..4), prop::option::weighted(0.4, (r, r, 1u64..2000))),
+        (prop::collection::vec((r, r, 0u8..=3), 0..4), prop::option::weighted(0.4, (r, r, 1u64..2000)), prop::option::weighted(0.4, (r, prop::bool::weighted(0.7)))),
     )
-        .prop_map(|(mask, stakes, perm_a, perm_b, perm_c, m, k, phi, meta, signer_pick, (dup_attempts, claimant))| Case { mask, stakes, perm_a, perm_b, perm_c, m, k, phi, meta, signer_pick, dup_attempts, claimant })
+        .prop_map(|(mask, stakes, perm_a, perm_b, perm_c, m, k, phi, meta, signer_pick, (dup_attempts, claimant, opposite))| Case { mask, stakes, perm_a, perm_b, perm_c, m, k, phi, meta, signer_pick, dup_attempts, claimant, opposite })
 }
 
 pub fn run(args: &Args) -> i32 {
     let mut check = Check::new("C06", "exploration", args);
     check
         .rule("party sets = non-empty subsets of 12 KES-certified fixture signers with generated stakes (incl. equal stakes), protocol parameters, three independent permutations of the registration order; the aggregate key is computed by the library (two orders), by SignerBuilder on the JSON round-tripped signer list, and by the client's MessageBuilder on the JSON round-tripped stake-distribution message; the key goes through json-hex and bytes round trips; one party's node-path signer signs and its slot / signature are checked against the library path; a distinct set (party removed, stake ±1, two stakes swapped) must give a distinct key. Non-trivial = n >= 2 and at least one non-identity permutation; distinct by (n, equal-stake pattern, metamorphic kind, permutation lengths, subset)")
-        .assume("key material comes from the repository's deterministic fixture builder (12 certified signers); shared-prefix BLS keys cannot be manufactured and are not covered")
+        .assume("key material comes from the repository's deterministic fixture builder (12 certified signers); one more key can be the opposite point of a member's key (secret key r - sk: same coordinate bytes, one flag bit apart); other shared-prefix BLS keys cannot be manufactured and are not covered")
         .assume("paths compared: library, SignerBuilder (used by signer and aggregator), client MessageBuilder; the aggregator/signer services themselves are exercised end-to-end by C14/C20")
         .require_label("permuted")
         .require_label("equal-stakes")
@@ -442,6 +521,7 @@ pub fn run(args: &Args) -> i32 {
         .require_label("meta:SwapStakes")
         .require_label("rejected-attempts")
         .require_label("key-claimed-twice")
+        .require_label("opposite-key:same-stake")
         .require_label("zero-stake-party");
     let t = check.tier;
     check.shrink_iters(200);
